@@ -529,6 +529,10 @@ static int find_state(automata *a, const char *name) {
 #define EL_LONG 60, 3600, 32767, 32768, 32769, 40000, 65535, 65536, 65537, 86400, 604800, 2147483647LL, 2147483648LL, \
                 4294967295LL, 4294967296LL, 4294967297LL, 4294967296LL + 40000, 1LL << 40
 #define NEL (5 + 18)
+/* a monotonic clock may read anything when the timer is armed: 0 during the first second after boot, values around
+ * 2^32 ms, large values */
+static const uint64_t CLK_BASES[] = {100000, 0, 1, 4294960, 4294967, 4294968, 1ull << 40};
+#define NBASE 7
 
 static int sweep_c14(int argc, char **argv) {
     (void)argc; (void)argv;
@@ -552,9 +556,10 @@ static int sweep_c14(int argc, char **argv) {
         long long el[NEL] = {0, t - 1, t, t + 1, 10 * t, EL_LONG};
         if (s == Q) { el[1] = 1; el[2] = 30; el[3] = 31; el[4] = 300; }
         for (int in = -128; in <= 255; in++) {
-            for (int k = 0; k < NEL; k++) {
+            for (int kb = 0; kb < NEL * NBASE; kb++) {
+                int k = kb % NEL;
                 if (el[k] < 0) continue;
-                uint64_t base = 100000;
+                uint64_t base = CLK_BASES[kb / NEL];        /* the clock reading (s) at which the timer was armed */
                 a->current_state = (uint8_t)s;
                 a->last_ts = base;
                 vp_now_ms = (base + (uint64_t)el[k]) * 1000 + 500;
@@ -575,8 +580,8 @@ static int sweep_c14(int argc, char **argv) {
                     char key[128];
                     snprintf(key, sizeof(key), "C14:step:%s:%s", sn[s],
                              timed_out ? "timeout-not-honoured" : (exp == s ? "spurious-transition" : "missing-transition"));
-                    viol(key, "state=%s input=%d elapsed=%llds (timeout %lds): new state %d, expected %s%d", sn[s], in, el[k], t, got,
-                         timed_out ? "idle or reopened, e.g. " : "", timed_out ? Q : exp);
+                    viol(key, "state=%s input=%d elapsed=%llds (timeout %lds), timer armed at clock %llu s: new state %d, expected %s%d", sn[s], in, el[k], t,
+                         (unsigned long long)base, got, timed_out ? "idle or reopened, e.g. " : "", timed_out ? Q : exp);
                 } else if (got != s) nontriv++;
                 /* the timer must run from this input - observable only while a timeout is armed (active state) */
                 if (got != Q && a->last_ts != base + (uint64_t)el[k])
@@ -608,9 +613,10 @@ static int sweep_c15(int argc, char **argv) {
         long long el[NEL] = {0, t - 1, t, t + 1, 10 * t, EL_LONG};
         if (t <= 0) { el[1] = 1; el[2] = 2; el[3] = 60; el[4] = 600; }
         for (int ev = 0; ev <= 7; ev++) {
-            for (int k = 0; k < NEL; k++) {
+            for (int kb = 0; kb < NEL * NBASE; kb++) {
+                int k = kb % NEL;
                 if (el[k] < 0) continue;
-                uint64_t base = 50000;
+                uint64_t base = CLK_BASES[kb / NEL];        /* the clock reading (s) at which the timer was armed */
                 a->current_state = (uint8_t)s;
                 a->last_ts = base;
                 vp_now_ms = (base + (uint64_t)el[k]) * 1000 + 1;
@@ -643,8 +649,8 @@ static int sweep_c15(int argc, char **argv) {
                     char key[128];
                     snprintf(key, sizeof(key), "C15:step:%s:event=%d:%s", sn[s], ev,
                              timed_out ? "timeout-not-honoured" : (exp == s ? "spurious-transition" : "missing-transition"));
-                    viol(key, "state=%s event=%d elapsed=%llds (timeout %lds): new state %s, expected %s", sn[s], ev, el[k], t,
-                         got < 8 && sn[got] ? sn[got] : "?", sn[timed_out ? N : exp]);
+                    viol(key, "state=%s event=%d elapsed=%llds (timeout %lds), timer armed at clock %llu s: new state %s, expected %s", sn[s], ev, el[k], t,
+                         (unsigned long long)base, got < 8 && sn[got] ? sn[got] : "?", sn[timed_out ? N : exp]);
                 } else if (got != s) nontriv++;
             }
         }
